@@ -932,6 +932,8 @@ class FnAnalysis:
                 self.ev(s, "arith", e, op=op, l=l, r=r, lty=e["l"]["ty"], rty=e["r"]["ty"], flavour="plain", ty=e["l"]["ty"], compound=True)
             nv = ("bin", op, l, r)
             lhs = e["l"]
+            if lhs["k"] == "Un" and lhs.get("op") == "*" and lhs["e"]["k"] == "Local" and lhs["e"]["var"] in s.env and is_int_ty(e["l"].get("ty") or ""):
+                lhs = lhs["e"]      # `*x += v` for an integer behind a reference held in a local: dereferencing is transparent, so this updates x's value
             if lhs["k"] == "Local":
                 s.env[lhs["var"]] = nv
                 self.ev(s, "assign", e, var=lhs["var"], name=lhs["name"], place=None, value=nv, compound=op)
@@ -1507,6 +1509,55 @@ class FnAnalysis:
                         if s3.ctrl is None:
                             outs.append((s3, v3))
                     continue
+            if fn.endswith("Iterator::find") and len(vals) == 2 and isinstance(vals[1], tuple) and vals[1] and vals[1][0] == "clos":
+                src_ = vals[0]
+                while isinstance(src_, tuple) and src_ and src_[0] == "mut":
+                    src_ = src_[1]
+                fnode = getattr(self, "clos_nodes", {}).get(vals[1][1])
+                if isinstance(src_, tuple) and src_ and src_[0] == "call" and src_[1].endswith("Iterator::scan") and len(src_[2]) == 3 and isinstance(src_[2][2], tuple) and src_[2][2][0] == "clos" \
+                        and fnode is not None and len(fnode["params"]) == 1:
+                    snode = getattr(self, "clos_nodes", {}).get(src_[2][2][1])
+                    if snode is not None and len(snode["params"]) == 2 and snode["params"][0].get("k") == "Bind":
+                        # `base.scan(init, |st, x| { ..; Some(y) }).find(|y| p(y))`: a loop over base with a carried state; the first y with p(y) is the answer
+                        base_, init_ = src_[2][0], src_[2][1]
+                        lid = e.get("id")
+                        none_t = ("call", "core::option::Option::None", (), None)
+                        s.events = [x for x in s.events if x.clos not in (vals[1][1], src_[2][2][1])]
+                        z_ = s.fork()
+                        self.ev(z_, "loop", e, what="skip", lid=lid)
+                        outs.append((z_, none_t))
+                        self.ev(s, "loop", e, what="enter", lid=lid, iter=base_)
+                        atom = V("loop%s:scan_state" % lid)
+                        self.havoc_src.setdefault(atom, set()).add(init_)
+                        s.loops = s.loops + (lid,)
+                        self.bind(s, snode["params"][0], atom, None)
+                        self.bind(s, snode["params"][1], self.element_of(s, base_, lid), None)
+                        stvar = snode["params"][0]["var"]
+                        for s2, y in self.eval(snode["body"], s):
+                            if s2.ctrl is not None:
+                                continue
+                            if s2.env.get(stvar) != atom:
+                                self.havoc_src[atom].add(s2.env.get(stvar))
+                            yy = y
+                            if isinstance(yy, tuple) and yy and yy[0] == "call" and yy[3] is None and yy[1] == "core::option::Option::None":
+                                s2.loops = s2.loops[:-1]
+                                self.ev(s2, "loop", e, what="exit", lid=lid, how="end")
+                                outs.append((s2, none_t))
+                                continue
+                            if isinstance(yy, tuple) and yy and yy[0] == "call" and yy[3] is None and yy[1] == "core::option::Option::Some" and len(yy[2]) == 1:
+                                yy = yy[2][0]
+                            self.bind(s2, fnode["params"][0], yy, None)
+                            for s3, t in self.eval(fnode["body"], s2):
+                                if s3.ctrl is not None:
+                                    continue
+                                known = _const_truth(t)
+                                for outcome in ((known,) if known is not None else (False, True)):
+                                    sb = s3.fork() if (known is None and outcome is False) else s3
+                                    self.ev(sb, "decide", e, how="if", outcome=outcome, cond=t, cond_node=e["args"][0], folded=known is not None)
+                                    sb.loops = sb.loops[:-1]
+                                    self.ev(sb, "loop", e, what="exit", lid=lid, how="break" if outcome else "end")
+                                    outs.append((sb, ("call", "core::option::Option::Some", (yy,), None) if outcome else none_t))
+                        continue
             if fn.startswith("std::collections::hash::map::Entry::") and fn.endswith("::or_insert_with") and len(vals) == 2 and isinstance(vals[1], tuple) and vals[1] and vals[1][0] == "clos":
                 # `map.entry(k).or_insert_with(f)`: occupied → the stored value; vacant → f() is inserted and handed back
                 node = getattr(self, "clos_nodes", {}).get(vals[1][1])
@@ -1629,6 +1680,15 @@ class FnAnalysis:
             return ("bin", op, vals[0], vals[1])
         if fn in MAP_LIKE and len(vals) == 2 and isinstance(vals[1], tuple) and vals[1] and vals[1][0] == "clos":
             node = getattr(self, "clos_nodes", {}).get(vals[1][1])
+            v0_ = vals[0]
+            while isinstance(v0_, tuple) and v0_ and v0_[0] == "mut":
+                v0_ = v0_[1]
+            if isinstance(v0_, tuple) and v0_ and v0_[0] == "call" and v0_[3] is None and v0_[1] in ("core::option::Option::None", "core::result::Result::Err"):
+                st.events[:] = [x for x in st.events if x.clos != vals[1][1]]
+                return v0_          # nothing to map
+            visible_some = isinstance(v0_, tuple) and v0_ and v0_[0] == "call" and v0_[3] is None and v0_[1] in ("core::option::Option::Some", "core::result::Result::Ok") and len(v0_[2]) == 1
+            if visible_some:
+                vals = [v0_[2][0]] + list(vals[1:])
             if node is not None and len(node["params"]) == 1:
                 sub = st.fork()
                 n0 = len(sub.events)
@@ -1646,6 +1706,8 @@ class FnAnalysis:
                     st.env, st.under, st.pos, st.vers = s2.env, s2.under, s2.pos, s2.vers
                     st.events[:] = [x for x in st.events if x.clos != vals[1][1]]
                     st.events.extend(x for x in s2.events[n0:] if x.clos != vals[1][1])
+                    if visible_some and fn.endswith("::map"):
+                        v2 = ("call", v0_[1], (v2,), None)      # Some(x).map(f) is Some(f(x))
                     self.ev(st, "call", e, fn=fn, args=tuple(vals), arg_nodes=arg_nodes, recv=recv_node, ret=v2, effects=(), uid=None, tys=tys,
                             argkeys=[frozenset() for _ in arg_nodes], pos_before={}, pos_after={}, direct=None, targs=e.get("targs"), resolved=e.get("resolved"))
                     return v2
